@@ -151,9 +151,15 @@ mutual
 end
 
 /-- Enough fuel for any call chain: nesting is bounded by the number of nodes (the `seen` / `merged`
-    sets grow along a chain) and each level walks one content list. -/
+    sets grow along a chain) and each level walks one list, consuming one unit of fuel per element.
+    That list is a content list (≤ `maxContent`) or, in `decodePairs`, the pairs yielded by one
+    `rangeMap`; with merges the latter is NOT bounded by one content list, only by
+    `|store| · maxContent` (every mapping node is ranged at most once per `rangeMap`), hence `maxList`.
+    (With the former bound `(|store|+2)·(maxContent+3)` deeply nested mappings that each merge several
+    wide mappings ran out of fuel; see `Lemmas/Yaml.lean`, `oldBound_counterexample`.) -/
 def maxContent (s : Store) : Nat := s.foldl (fun m n => max m n.content.length) 0
-def bound (s : Store) : Nat := (s.length + 2) * (maxContent s + 3)
+def maxList (s : Store) : Nat := (s.length + 1) * maxContent s
+def bound (s : Store) : Nat := (s.length + 2) * (maxList s + 3)
 
 /-- `rangeYAMLMap(n, f)`: the (canonical key, value node) pairs in the order `f` receives them. -/
 def rangeMap (s : Store) (fuel : Nat) (i : Nat) : Except Err (List (String × Nat)) :=
